@@ -31,6 +31,10 @@ def run(ctx):
     run_queues(ctx, jobs, pb=2 if q else 3, max_exec=600 if q else 30000)
     if not q:
         run_queues(ctx, jobs, pb=5, max_exec=0, mode='random', runs=1500, tagx='r')
+        # more threads than entries (known finding C05-scq-threshold-underflow lives here)
+        many = ['nkb1/-/I;;push1,pop,push5,pop;push2,pop,push6,pop;push3,pop,pop;push4,pop,pop', 'nkb2/-/I;;push1,push5,pop,pop;push2,pop,push6,pop;push3,pop,pop;push4,pop,pop',
+                'nkb1/-/I;;push1,pop,push5;push2,pop;pop,push3', 'vyu2/-/I;;push1,pop,push5,pop;push2,pop,push6,pop;push3,pop,pop;push4,pop,pop']
+        run_queues(ctx, many, pb=10, max_exec=0, mode='random', runs=40000, tagx='many', nsh=4)
     for r in ctx.tv[:3]:
         ctx.samples.append({'driver': r['driver'], 'history': canonical_sample(execution_lines(r['trace'], 2), 60)})
     return finish(ctx,
